@@ -30,6 +30,15 @@ func escapeObligs(tier string, withSplit bool) []Oblig {
 		}
 	}
 	if withSplit {
+		// the split falls where the storage has to grow (capacity 64, the
+		// unsafe side also holds the start marker)
+		for mode := 0; mode <= 1; mode++ {
+			for _, k := range []int{58, 59, 60} {
+				for split := 1; split <= 2; split++ {
+					obs = append(obs, Oblig{Harness: "H_escape", Args: []int{0, 3, mode, split, 0, k + 3*mode}})
+				}
+			}
+		}
 		sn := 4
 		if tier == "thorough" {
 			sn = 5
@@ -158,7 +167,13 @@ func histObligs(tier string, panicViol bool) []Oblig {
 			if (a == 0) != (b == 0) {
 				continue
 			}
-			obs = append(obs, Oblig{Harness: "H_hist2", Args: []int{1063, a, 2, b}, PanicViol: panicViol})
+			// the buffer's first allocation has capacity 64: the unsafe side also
+			// holds the 3-byte start marker, so its payload is 3 bytes shorter
+			n1 := 1063
+			if a != 0 {
+				n1 = 1060
+			}
+			obs = append(obs, Oblig{Harness: "H_hist2", Args: []int{n1, a, 2, b}, PanicViol: panicViol})
 		}
 	}
 	// an unsafe payload ending in a line feed (template ".sn"), then safe text that starts with a marker
